@@ -43,6 +43,13 @@ def murmur3_bytes(data: bytes, seed: int = 0) -> int:
     return h
 
 
+def murmur3_mod256(s: str, seed: int = 0) -> int:
+    """What the pinned release computes for *any* str: only the low 8 bits of every code point reach the low 32 bits of
+    the state (masks / shifts beyond bit 31 are dropped by the final & 0xFFFFFFFF).  Used as the release-stability
+    reference for strings outside Latin-1 (C14: 'placement ... does not change between releases')."""
+    return murmur3_bytes(bytes(ord(ch) & 0xFF for ch in s), seed)
+
+
 def murmur3_latin1(s: str, seed: int = 0) -> int:
     """The library's function takes a str of code points; for 0..255 those are bytes."""
     return murmur3_bytes(s.encode("latin-1"), seed)
@@ -114,10 +121,7 @@ def rendezvous_ref(nodes, key, hashfn=None, seed=0):
         return None
     if hashfn is None:
         def hashfn(s, seed=seed):
-            try:
-                return murmur3_latin1(s, seed)
-            except UnicodeEncodeError:
-                return None
+            return murmur3_mod256(s, seed)
     best = None
     for node in nodes:
         sc = hashfn("%s-%s" % (node, key), seed)
